@@ -163,11 +163,12 @@ def judge_sessions(ctx, results, label):
 
 
 def run(ctx):
-    # (1) the design: all interleavings of <= 2 (quick) / 3 (thorough) user actions with every previewer / watcher /
+    # (1) the design: all interleavings of <= 2 (quick) / 4 (thorough) user actions with every previewer / watcher /
     #     command step, safety + liveness; then the deviation configs, whose counterexamples are kept
-    ctx.mc("FzfPreview", "MC_Preview_quick.cfg" if ctx.quick else "MC_Preview.cfg", timeout=1700, workers=6, coverage=True)
+    ctx.mc("FzfPreview", "MC_Preview_quick.cfg", timeout=900, workers=6, coverage=True)
     if not ctx.quick:
-        ctx.mc("FzfPreview", "MC_Preview_noq.cfg", timeout=1700, workers=6)
+        ctx.mc("FzfPreview", "MC_Preview.cfg", timeout=3000, workers=8)          # 4 user actions: ~3.9 M states, 5-8 min
+        ctx.mc("FzfPreview", "MC_Preview_noq.cfg", timeout=1700, workers=8)
     for label, res in ctx.cov["action_coverage"].items():
         zero = [a for a, n in res.items() if n == 0 and a.split(".")[1] not in ("Init",)]
         if zero:
@@ -203,8 +204,15 @@ def run(ctx):
             if "post" in st and st["post"].startswith("change-preview:"):
                 st["post"] = "change-preview:" + preview.command(st["post"].split(":", 1)[1], p.kinds, p.lead)
 
+    retried = []
+
     def do(plan):
-        return plan.sid, plan, preview.run_session(ctx, fzf, plan)
+        try:
+            return plan.sid, plan, preview.run_session(ctx, fzf, plan)
+        except preview.Unsettled:
+            # not reproduced = noise of the machine; reproduced = recorded as it is and judged by the specification
+            retried.append(plan.sid)
+            return plan.sid, plan, preview.run_session(ctx, fzf, plan, record_unsettled=True)
     results = {}
     with ThreadPoolExecutor(max_workers=ctx.pick(5, 6)) as ex:
         for sid, plan, evs in ex.map(do, plans):
@@ -216,6 +224,7 @@ def run(ctx):
     for e in allev:
         kinds[e["ev"]] = kinds.get(e["ev"], 0) + 1
     ctx.cov["traces_validated_against_impl"] = len(results)
+    ctx.cov["sessions_rerun_because_unsettled"] = len(retried)
     ctx.cov["sessions_accepted_without_deviation"] = clean
     ctx.cov["events_by_kind"] = kinds
     ctx.cov["try_sends"] = {"taken": sum(1 for e in allev if e["ev"] == "sig" and e["sent"]),
